@@ -7,6 +7,7 @@ unsupported value) is a parameter — the compressions are C20's subject.  All s
 for every item list / operation sequence (no bound on sizes).
 -/
 import ConfModel.Lemmas.RawBody
+import ConfModel.Lemmas.RawMerge
 namespace ConfModel.Props.C17
 open ConfModel.RawBody ConfModel.RawBodySpec
 
@@ -127,5 +128,79 @@ example : finish (run {} [.setRaw ⟨0, [1]⟩, .write [9], .flush, .setRaw ⟨5
 
 example : finish (run {} [.write [9], .setRaw ⟨503, [2]⟩, .flush]).1 = [.body [9], .flush] ∧
     (run {} [.write [9], .setRaw ⟨503, [2]⟩, .flush]).2 = [.passed, .refused, .passed] := by decide
+
+/-! ## Merging a raw definition into what is already there: the request target, the response headers -/
+
+section Merge
+open ConfModel.RawMerge
+
+/-- **raw_request_uri_verbatim.**  A raw request that lists no extra query parameters is sent to
+exactly the given URI - byte for byte, whatever its query string looks like (parameter order,
+escaping, bare keys, pairs `net/url` could not even parse): nothing is parsed or re-encoded. -/
+theorem raw_request_uri_verbatim (parse : String → String × List (String × RawMerge.Bytes)) (uri : String) :
+    requestTarget parse uri [] [] = uri := by
+  simp [requestTarget]
+
+/-- **raw_request_query_exact.**  With extra parameters the query that is sent carries, for every
+name, exactly the values the URI already had for it, then the listed raw values, then the encoded
+ones - each in the order given, none lost, none invented. -/
+theorem raw_request_query_exact (inline : List (String × RawMerge.Bytes)) (raw : List (String × List RawMerge.Bytes))
+    (enc : List (String × RawMerge.Bytes)) (k : String) :
+    get (mergeQuery inline raw enc) k =
+      (inline.filter (·.1 == k)).map (·.2) ++ listed raw k ++ (enc.filter (·.1 == k)).map (·.2) := by
+  unfold mergeQuery
+  rw [get_addAll, get_addAll, get_addAll, listed_single, listed_single]
+  simp [RawMerge.get]
+
+example :
+    let m := mergeQuery [("b", [50]), ("a", [49])] [("a", [[120, 32, 121]])] [("m", [255])]
+    RawMerge.get m "a" = [[49], [120, 32, 121]] ∧ RawMerge.get m "b" = [[50]] ∧ RawMerge.get m "m" = [[255]] ∧
+    (queryEscape [120, 32, 121, 255]).toList = "x+y%FF".toList := by decide
+
+/-- **raw_response_headers_exact.**  The header map a raw response is sent with holds, for every
+name (other than the suppressed `Date` and the `Trailer` declaration), the values the middleware in
+front of the raw responder had put there before the handler ran, followed by exactly the given
+values in the given order - a given header whose name the middleware also uses is *added*, never
+dropped or overwritten. -/
+theorem raw_response_headers_exact (canon : String → String) (cur snap : Values String)
+    (given trailers : List (String × List String)) (hd : keysDistinct snap = true) (k : String)
+    (hDate : k ≠ "Date") (hTrailer : k ≠ "Trailer") :
+    get (finishHeaders canon cur snap given trailers) k =
+      get snap k ++ listed (given.map fun p => (canon p.1, p.2)) k := by
+  have h1 : ("Date" == k) = false := by simpa using fun e => hDate e.symm
+  have h2 : listed (trailers.map fun t => ("Trailer", [t.1])) k = [] := by
+    have : ∀ ts : List (String × List String), listed (ts.map fun t => ("Trailer", [t.1])) k = [] := by
+      intro ts
+      induction ts with
+      | nil => rfl
+      | cons t rest ih =>
+        have : ("Trailer" == k) = false := by simpa using fun e => hTrailer e.symm
+        simpa [listed, this] using ih
+    exact this trailers
+  unfold finishHeaders
+  simp only [get_addAll, get_set, h1, h2, List.append_nil, Bool.false_eq_true, if_false]
+  rw [get_restore snap _ k hd]
+  by_cases hk : hasKey snap k = true
+  · simp [hk]
+  · have hk' : hasKey snap k = false := by simpa using hk
+    simp [hk', clear, RawMerge.get, get_of_not_hasKey snap k hk']
+
+/-- **raw_response_no_handler_header.**  Nothing of the header map the handler left behind
+survives: the headers of a raw response do not depend on it. -/
+theorem raw_response_no_handler_header (canon : String → String) (cur snap : Values String)
+    (given trailers : List (String × List String)) :
+    finishHeaders canon cur snap given trailers = finishHeaders canon [] snap given trailers := rfl
+
+/-- Non-vacuity: behind CORS (`Vary: Origin`, `Access-Control-Expose-Headers: *`) a raw response
+that itself lists `Vary` and `Access-Control-Expose-Headers` keeps both; the handler's
+`Content-Type` is gone. -/
+example :
+    let h := finishHeaders id [("Vary", ["Origin"]), ("Content-Type", ["application/json"])]
+      [("Vary", ["Origin"]), ("Access-Control-Expose-Headers", ["*"])]
+      [("Vary", ["Accept-Encoding", "Connect-Protocol-Version"]), ("Access-Control-Expose-Headers", ["X-Custom"])] []
+    get h "Vary" = ["Origin", "Accept-Encoding", "Connect-Protocol-Version"] ∧
+    get h "Access-Control-Expose-Headers" = ["*", "X-Custom"] ∧ get h "Content-Type" = [] := by decide
+
+end Merge
 
 end ConfModel.Props.C17
